@@ -6,14 +6,14 @@ WT=$1; CRATE=$2; FILTER=$3
 cd "$WT" || exit 2
 export CARGO_NET_OFFLINE=true
 T="$WT/target"
-git checkout -q -- . ; git clean -fdq -e deliver -e target
+git reset -q --hard; git clean -fdq -e deliver -e target
 git apply deliver/demo.diff || { echo "demo.diff does not apply"; exit 2; }
 echo "## without patch"
-cargo test -q -p "$CRATE" --offline --target-dir "$T" "$FILTER" 2>&1 | grep -E "^test |test result|panicked" | head -8
+cargo test -q $CRATE --offline --target-dir "$T" "$FILTER" 2>&1 | grep -E "^test |test result|panicked" | head -8
 git apply deliver/patch.diff || { echo "patch.diff does not apply"; exit 2; }
 echo "## with patch"
-cargo test -q -p "$CRATE" --offline --target-dir "$T" "$FILTER" 2>&1 | grep -E "^test |test result|panicked" | head -8
-git checkout -q -- . ; git clean -fdq -e deliver -e target
+cargo test -q $CRATE --offline --target-dir "$T" "$FILTER" 2>&1 | grep -E "^test |test result|panicked" | head -8
+git reset -q --hard; git clean -fdq -e deliver -e target
 git apply deliver/patch.diff
 echo "## 41 tests with patch only"
 cargo test --offline --target-dir "$T" 2>&1 | grep -E "test result|FAILED|failed" | head -12
